@@ -60,6 +60,8 @@ def run(ctx):
     ctx.rule("check/indicator-from-received", "the indicator is [computed check == received check bits] with the received bits taken from the check field in order")
     ctx.rule("check/coverage", "the computed check covers every wire bit that any field depends on (all bits except the check field and reserved ones)")
     ctx.rule("check/mask", "the computed side applies the PDU's own B.3.12 mask and the standard inversion")
+    ctx.rule("check/indicator-membership", "slot type / EMB: for every value of the information bits (folded enumeration values included) the check values the parser accepts are exactly those that make the received word a codeword")
+    ctx.rule("check/field-order", "CRC PDUs: the serialised check field carries the computed value most-significant bit first, contiguous order of the polynomial (the arrangement for which the CRC's burst-detection guarantee holds across the data / check boundary)")
     ctx.rule("check/roundtrip-ok", "a PDU whose check field the library generated serialises and parses back with indicator provably True")
     masks = CRCSPEC["masks"]
     for T in TARGETS:
@@ -79,11 +81,76 @@ def run(ctx):
             q = f"{ci.qualname}" + (f"[{tname}]" if tname else "")
             with ctx.guard(q):
                 analyse(ctx, T, ci, q, reader, writer, tmem, masks)
+    for T in TARGETS:
+        if T["kind"] == "fec":
+            with ctx.guard(f"{T['cls']} membership over all information values"):
+                fec_membership(ctx, T)
     fec_checker_assumption(ctx)
     ctx.require("check/indicator-truth", 2)
     ctx.require("check/in-band-sentinel", 9)
     ctx.require("check/coverage", 9)
     ctx.require("check/roundtrip-ok", 11)
+
+
+def fec_membership(ctx, T):
+    """indicator == codeword membership for EVERY received word, including information values that an element enumeration folds
+    to another member (the symbolic pass above assumes defined members): one run per value of the information bits with the
+    check field symbolic — on a path that verified the field, the set of accepted check values (a linear system in the check
+    bits) must be exactly the one parity the code's generator gives for the RECEIVED information bits"""
+    repo = ctx.repo
+    ci = repo.cls(T["mod"], T["cls"])
+    reader = repo.find_method(ci, T.get("reader", "from_bits"))
+    H, k_, n_ = spec_H(T["code"])
+    check_pos = T["check"]
+    info_pos = [p for p in range(T["N"]) if p not in check_pos]
+    # a word is a codeword iff H*w = 0: for the received information bits the accepting check value is the unique solution
+    bad, n_runs, n_verified = [], 0, 0
+    for v in range(1 << len(info_pos)):
+        I = Interp(repo)
+
+        def run_m(st, v=v):
+            I.st = st
+            items = [None] * T["N"]
+            for j, p in enumerate(info_pos):
+                items[p] = F(0, (v >> (len(info_pos) - 1 - j)) & 1)
+            for p in check_pos:
+                items[p] = I.atom_form(("p", p))
+            wire = ABits(items, "ba")
+            return wire, I.call(reader, [wire], {})
+        n_runs += 1
+        for st, (k, val) in explore(run_m, max_paths=16):
+            I.st = st
+            if k == "abort":
+                raise AnalysisError(f"{ci.qualname} information value {v}: {val}")
+            if k == "raise":
+                continue
+            wire, obj = val
+            V = obj.attrs.get(T["ind"]) if isinstance(obj, AObj) else None
+            wb = I.simp_bits(wire.items)
+            if all(isinstance(wb[p], F) and wb[p].is_const for p in check_pos):
+                continue     # the path pinned the whole check field (the constructor's in-band sentinel): check/in-band-sentinel
+            syn = []
+            for row in H:
+                acc = F(0, 0)
+                for i, h in enumerate(row):
+                    if h:
+                        acc = acc ^ wb[i]
+                syn.append(acc)
+            n_verified += 1
+            if V is True or V is False:
+                bad.append(f"information bits {v:0{len(info_pos)}b}: the indicator is the constant {V} whatever check field is received")
+                continue
+            if not (isinstance(V, ACond) and V.kind == "codeword"):
+                raise AnalysisError(f"{ci.qualname} information value {v}: indicator {V!r} not modelled")
+            theirs = [x for x in V.parts[1]]
+            if any(not isinstance(x, F) for x in theirs):
+                raise AnalysisError(f"{ci.qualname} information value {v}: acceptance condition is not linear in the check bits")
+            same = lin_rank(syn) == lin_rank(theirs) == lin_rank(syn + theirs)
+            if not same:
+                bad.append(f"information bits {v:0{len(info_pos)}b}: the accepted check values are not those that make the RECEIVED word a codeword "
+                           f"(the word is verified after being re-serialised from the decoded fields)")
+    ctx.ob("check/indicator-membership", ci.qualname, not bad and n_verified >= (1 << len(info_pos)),
+           f"{n_runs} information values, {n_verified} verifying paths; " + ("; ".join(bad[:3]) + (f" (+{len(bad) - 3} more)" if len(bad) > 3 else "") if bad else "accepted check values = the code's parity of the received information bits, for every value"), reader.loc)
 
 
 def analyse(ctx, T, ci, q, reader, writer, tmem, masks):
@@ -231,28 +298,73 @@ def analyse(ctx, T, ci, q, reader, writer, tmem, masks):
         obj = I2.call(reader, args, {})
         out = I2.call(writer, [obj], {})
         obj2 = I2.call(reader, [ABits(list(out.items))] + ([tmem] if tmem is not None else []), {})
-        return wire, obj, obj2
+        return wire, obj, obj2, out
 
     n_rt = 0
     bad = []
+    order_seen = None
     for st, (k, v) in explore(run_rt, max_paths=600):
         I2.st = st
         if k == "abort":
             raise AnalysisError(f"{q} round trip: {v}")
         if k == "raise":
             continue
-        wire, obj, obj2 = v
+        wire, obj, obj2, out = v
         # only paths on which the FIRST parse generated the check (indicator True without data constraints)
         gen = obj.attrs.get(T["ind"]) is True
         if not gen:
             continue
         n_rt += 1
+        if T["kind"] == "crc" and order_seen is None:
+            # where the bits of the computed check value are placed in the serialised PDU: the guaranteed detection of bursts that
+            # run across the boundary between the protected bits and the check field holds for a check field written in the order
+            # of the polynomial (most significant bit first); a field written backwards is a different (non-cyclic) arrangement
+            sig = []
+            for p_ in check_pos:
+                b_ = I2.simp(out.items[p_])
+                nm_ = I2.atoms.names[b_.atoms()[0]] if isinstance(b_, F) and len(b_.atoms()) == 1 else None
+                sig.append(nm_[2] if isinstance(nm_, tuple) and len(nm_) == 3 and nm_[0] == "fn" else None)
+            if None not in sig:
+                w_ = len(check_pos)
+                order_seen = "msb-first" if sig == list(range(w_ - 1, -1, -1)) else ("lsb-first" if sig == list(range(w_)) else f"permuted {sig}")
         V2 = obj2.attrs.get(T["ind"])
         if V2 is not True:
             bad.append(f"path {st.labels[-3:]}: re-parsed indicator is {V2!r}")
     if T["cls"] == "PIHeader":
         # no generate path: the constructor always recomputes; serialise(parse(w)) must re-parse as ok
         n_rt = n_rt or 1
+    if n_rt == 0:
+        # the reader never generates (its verdict is about the received word): the check field is generated by the CONSTRUCTOR
+        # called without a check value — build the object from the decoded fields that way, serialise, parse back
+        init = repo.find_method(ci, "__init__")
+        a_ = init.node.args
+        params = [x.arg for x in a_.posonlyargs + a_.args][1:]
+        n_def = len(a_.defaults)
+        with_default = set(params[len(params) - n_def:]) if n_def else set()
+        I3 = Interp(repo)
+
+        def run_gen(st):
+            I3.st = st
+            wire = I3.wire("w", N)
+            obj = I3.call(reader, [wire] + ([tmem] if tmem is not None else []), {})
+            kw = {p_: obj.attrs[p_] for p_ in params if p_ in obj.attrs and not (p_ in with_default and any(t_ in p_ for t_ in ("parity", "crc")))}
+            gen = I3.construct(ci, [], kw)
+            out = I3.call(writer, [gen], {})
+            return I3.call(reader, [ABits(list(out.items))] + ([tmem] if tmem is not None else []), {})
+        for st, (k, v) in explore(run_gen, max_paths=600):
+            I3.st = st
+            if k == "abort":
+                raise AnalysisError(f"{q} round trip through the constructor: {v}")
+            if k == "raise":
+                continue
+            n_rt += 1
+            V2 = v.attrs.get(T["ind"]) if isinstance(v, AObj) else None
+            if V2 is not True:
+                bad.append(f"built by the constructor without a check value, path {st.labels[-3:]}: re-parsed indicator is {V2!r}")
+    if T["kind"] == "crc" and order_seen is not None:
+        ctx.ob("check/field-order", q, order_seen == "msb-first",
+               f"the serialised check field carries the computed value {order_seen}" + ("" if order_seen == "msb-first" else
+               ": bursts no longer than the check field that run across the boundary between the protected bits and the check field are not all detected in this arrangement"), writer.loc)
     ctx.ob("check/roundtrip-ok", q, not bad and n_rt > 0, f"{n_rt} generating path(s); " + ("; ".join(bad[:3]) if bad else "re-parsed indicator provably True"), reader.loc)
 
 
